@@ -46,6 +46,7 @@ def bfs(init, step, letters, observe, *, max_states=2_000_000, max_seconds=600.0
     outcomes = set()
     depth = 0
     transitions = 0
+    nodes_done = 0
     while frontier:
         if max_depth is not None and depth >= max_depth:
             r.capped = f"depth {max_depth}"
@@ -75,6 +76,10 @@ def bfs(init, step, letters, observe, *, max_states=2_000_000, max_seconds=600.0
                     on_edge(node, letter, outs, n2)
             if len(seen) > max_states:
                 r.capped = f"states>{max_states}"
+                break
+            nodes_done += 1
+            if nodes_done % 256 == 0 and time.time() - t0 > max_seconds:
+                r.capped = f"time>{max_seconds}s"
                 break
         if r.capped:
             break
